@@ -3602,7 +3602,8 @@ class Scene:
         mind, if values are already specified in the input but those values are not used in MachUpX,
         they will still be included in the input file exported here.
 
-        Note, this will set the aircraft state to zero aerodynamic angles and zero control deflections.
+        Note, the model is evaluated about zero aerodynamic angles and zero control deflections; the state and
+        control deflections the aircraft had before the call are put back afterwards.
 
         Parameters
         ----------
@@ -3722,6 +3723,11 @@ class Scene:
         except KeyError:
             pass
 
+        # Store the current state to put it back when the model has been evaluated
+        v_orig, w_orig, p_orig, q_orig = aircraft_object.get_state()
+        rate_frame_orig = aircraft_object.angular_rate_frame
+        controls_orig = copy.deepcopy(aircraft_object.current_control_state)
+
         # Set reference state at zero sideslip and angle of attack, zero control deflections, and zero angular rates
         V_ref = kwargs.get("velocity", 100)
         self.set_aircraft_state(state={"velocity" : V_ref})
@@ -3805,6 +3811,13 @@ class Scene:
 
         coefs = np.polyfit(CS, CD, 2)
         model_dict["coefficients"]["CD3"] = float(coefs[0])
+
+        # Put the original state back
+        aircraft_object.set_state(position=p_orig, velocity=quat_trans(q_orig, v_orig), orientation=q_orig, angular_rates=w_orig)
+        aircraft_object.angular_rate_frame = rate_frame_orig
+        self._perform_geometry_and_atmos_calcs()
+        self.set_aircraft_control_state(controls_orig, aircraft=aircraft_name)
+        self._solved = False
 
         # Put in placeholder engine
         placeholder = {
